@@ -1148,3 +1148,214 @@ func lemmaC13_max_payload_AS923_4(rep bool, dt lorawan.DwellTime, ver, rev strin
 	}
 	_ = p
 }
+
+// ---------------------------------------------------------------------------
+// C12: the RX1 data-rate equals the region's rule where the Regional Parameters define it by formula
+// ---------------------------------------------------------------------------
+
+// EU868: RX1DR = max(DR - RX1DROffset, 0) for DR 0..7, offset 0..5
+func lemmaC12_rx1_rule_EU868(rep bool, dr, off int) {
+	verifAssume(0 <= dr && dr <= 7 && 0 <= off && off <= 5)
+	b, _ := newEU863Band(rep)
+	r, err := b.GetRX1DataRateIndex(dr, off)
+	verifAssert(err == nil, "accepted")
+	want := dr - off
+	if want < 0 {
+		want = 0
+	}
+	verifAssert(err != nil || r == want, "rx1-rule")
+}
+
+// EU433: RX1DR = max(DR - RX1DROffset, 0) for DR 0..7, offset 0..5
+func lemmaC12_rx1_rule_EU433(rep bool, dr, off int) {
+	verifAssume(0 <= dr && dr <= 7 && 0 <= off && off <= 5)
+	b, _ := newEU433Band(rep)
+	r, err := b.GetRX1DataRateIndex(dr, off)
+	verifAssert(err == nil, "accepted")
+	want := dr - off
+	if want < 0 {
+		want = 0
+	}
+	verifAssert(err != nil || r == want, "rx1-rule")
+}
+
+// CN779: RX1DR = max(DR - RX1DROffset, 0) for DR 0..7, offset 0..5
+func lemmaC12_rx1_rule_CN779(rep bool, dr, off int) {
+	verifAssume(0 <= dr && dr <= 7 && 0 <= off && off <= 5)
+	b, _ := newCN779Band(rep)
+	r, err := b.GetRX1DataRateIndex(dr, off)
+	verifAssert(err == nil, "accepted")
+	want := dr - off
+	if want < 0 {
+		want = 0
+	}
+	verifAssert(err != nil || r == want, "rx1-rule")
+}
+
+// RU864: RX1DR = max(DR - RX1DROffset, 0) for DR 0..7, offset 0..5
+func lemmaC12_rx1_rule_RU864(rep bool, dr, off int) {
+	verifAssume(0 <= dr && dr <= 7 && 0 <= off && off <= 5)
+	b, _ := newRU864Band(rep)
+	r, err := b.GetRX1DataRateIndex(dr, off)
+	verifAssert(err == nil, "accepted")
+	want := dr - off
+	if want < 0 {
+		want = 0
+	}
+	verifAssert(err != nil || r == want, "rx1-rule")
+}
+
+// ISM2400: RX1DR = max(DR - RX1DROffset, 0) for DR 0..7, offset 0..5
+func lemmaC12_rx1_rule_ISM2400(rep bool, dr, off int) {
+	verifAssume(0 <= dr && dr <= 7 && 0 <= off && off <= 5)
+	b, _ := newISM2400Band(rep)
+	r, err := b.GetRX1DataRateIndex(dr, off)
+	verifAssert(err == nil, "accepted")
+	want := dr - off
+	if want < 0 {
+		want = 0
+	}
+	verifAssert(err != nil || r == want, "rx1-rule")
+}
+
+// KR920: RX1DR = max(DR - RX1DROffset, 0) for DR 0..5, offset 0..5
+func lemmaC12_rx1_rule_KR920(rep bool, dr, off int) {
+	verifAssume(0 <= dr && dr <= 5 && 0 <= off && off <= 5)
+	b, _ := newKR920Band(rep)
+	r, err := b.GetRX1DataRateIndex(dr, off)
+	verifAssert(err == nil, "accepted")
+	want := dr - off
+	if want < 0 {
+		want = 0
+	}
+	verifAssert(err != nil || r == want, "rx1-rule")
+}
+
+// IN865: RX1DR = max(DR - RX1DROffset, 0) for DR 0..5, offset 0..5
+func lemmaC12_rx1_rule_IN865(rep bool, dr, off int) {
+	verifAssume(0 <= dr && dr <= 5 && 0 <= off && off <= 5)
+	b, _ := newIN865Band(rep)
+	r, err := b.GetRX1DataRateIndex(dr, off)
+	verifAssert(err == nil, "accepted")
+	want := dr - off
+	if want < 0 {
+		want = 0
+	}
+	verifAssert(err != nil || r == want, "rx1-rule")
+}
+
+// AS923: RX1DR = MIN(5, MAX(MinDR, DR - EffectiveOffset)); EffectiveOffset = offset for 0..5, -1 / -2 for 6 / 7;
+// MinDR = 2 when the downlink dwell time is limited to 400 ms, else 0
+func lemmaC12_rx1_rule_AS923(rep bool, dt lorawan.DwellTime, dr, off int) {
+	verifAssume(dt == lorawan.DwellTimeNoLimit || dt == lorawan.DwellTime400ms)
+	verifAssume(0 <= dr && dr <= 7 && 0 <= off && off <= 7)
+	b, _ := newAS923Band(rep, dt, 0, "")
+	r, err := b.GetRX1DataRateIndex(dr, off)
+	verifAssert(err == nil, "accepted")
+	eff := off
+	if off == 6 {
+		eff = -1
+	}
+	if off == 7 {
+		eff = -2
+	}
+	floor := 0
+	if dt == lorawan.DwellTime400ms {
+		floor = 2
+	}
+	want := dr - eff
+	if want < floor {
+		want = floor
+	}
+	if want > 5 {
+		want = 5
+	}
+	verifAssert(err != nil || r == want, "rx1-rule")
+}
+
+// AS923_2: RX1DR = MIN(5, MAX(MinDR, DR - EffectiveOffset)); EffectiveOffset = offset for 0..5, -1 / -2 for 6 / 7;
+// MinDR = 2 when the downlink dwell time is limited to 400 ms, else 0
+func lemmaC12_rx1_rule_AS923_2(rep bool, dt lorawan.DwellTime, dr, off int) {
+	verifAssume(dt == lorawan.DwellTimeNoLimit || dt == lorawan.DwellTime400ms)
+	verifAssume(0 <= dr && dr <= 7 && 0 <= off && off <= 7)
+	b, _ := newAS923Band(rep, dt, -1800000, "-2")
+	r, err := b.GetRX1DataRateIndex(dr, off)
+	verifAssert(err == nil, "accepted")
+	eff := off
+	if off == 6 {
+		eff = -1
+	}
+	if off == 7 {
+		eff = -2
+	}
+	floor := 0
+	if dt == lorawan.DwellTime400ms {
+		floor = 2
+	}
+	want := dr - eff
+	if want < floor {
+		want = floor
+	}
+	if want > 5 {
+		want = 5
+	}
+	verifAssert(err != nil || r == want, "rx1-rule")
+}
+
+// AS923_3: RX1DR = MIN(5, MAX(MinDR, DR - EffectiveOffset)); EffectiveOffset = offset for 0..5, -1 / -2 for 6 / 7;
+// MinDR = 2 when the downlink dwell time is limited to 400 ms, else 0
+func lemmaC12_rx1_rule_AS923_3(rep bool, dt lorawan.DwellTime, dr, off int) {
+	verifAssume(dt == lorawan.DwellTimeNoLimit || dt == lorawan.DwellTime400ms)
+	verifAssume(0 <= dr && dr <= 7 && 0 <= off && off <= 7)
+	b, _ := newAS923Band(rep, dt, -6600000, "-3")
+	r, err := b.GetRX1DataRateIndex(dr, off)
+	verifAssert(err == nil, "accepted")
+	eff := off
+	if off == 6 {
+		eff = -1
+	}
+	if off == 7 {
+		eff = -2
+	}
+	floor := 0
+	if dt == lorawan.DwellTime400ms {
+		floor = 2
+	}
+	want := dr - eff
+	if want < floor {
+		want = floor
+	}
+	if want > 5 {
+		want = 5
+	}
+	verifAssert(err != nil || r == want, "rx1-rule")
+}
+
+// AS923_4: RX1DR = MIN(5, MAX(MinDR, DR - EffectiveOffset)); EffectiveOffset = offset for 0..5, -1 / -2 for 6 / 7;
+// MinDR = 2 when the downlink dwell time is limited to 400 ms, else 0
+func lemmaC12_rx1_rule_AS923_4(rep bool, dt lorawan.DwellTime, dr, off int) {
+	verifAssume(dt == lorawan.DwellTimeNoLimit || dt == lorawan.DwellTime400ms)
+	verifAssume(0 <= dr && dr <= 7 && 0 <= off && off <= 7)
+	b, _ := newAS923Band(rep, dt, -5900000, "-4")
+	r, err := b.GetRX1DataRateIndex(dr, off)
+	verifAssert(err == nil, "accepted")
+	eff := off
+	if off == 6 {
+		eff = -1
+	}
+	if off == 7 {
+		eff = -2
+	}
+	floor := 0
+	if dt == lorawan.DwellTime400ms {
+		floor = 2
+	}
+	want := dr - eff
+	if want < floor {
+		want = floor
+	}
+	if want > 5 {
+		want = 5
+	}
+	verifAssert(err != nil || r == want, "rx1-rule")
+}
